@@ -51,5 +51,40 @@ func main() {
 		}()
 		chk(ctx)
 	}()
+	if *tier == "thorough" {
+		vs := core.RunSelftests(*prop, *repo, *verif)
+		run, det := 0, 0
+		var misses []string
+		for _, v := range vs {
+			if v.Applied {
+				run++
+				if v.Detected {
+					det++
+				} else {
+					misses = append(misses, v.Name)
+				}
+			}
+			status := "DETECTED"
+			if !v.Applied {
+				status = "SKIPPED (" + v.Note + ")"
+			} else if !v.Detected {
+				status = "MISSED"
+			}
+			first := ""
+			if len(v.Reports) > 0 {
+				first = " — " + v.Reports[0]
+			}
+			fmt.Printf("selftest %-12s %s: %s%s\n", v.Kind, v.Name, status, first)
+		}
+		rep.Selftest = map[string]any{
+			"what":     "the checker run on seeded variants of the repository (scratch copies under /var/tmp, removed afterwards): hand-made single-instance variants, variants written by independent sub-agents given only the property text, and reversals of the fix: commits; every variant compiles and passes the 51 existing tests",
+			"variants": vs, "variants_run": run, "variants_detected": det, "missed": misses,
+		}
+		rep.Unit("selftest_variants_run", run)
+		rep.Unit("selftest_variants_detected", det)
+		if len(misses) > 0 {
+			rep.Note("selftest: %d of %d variants are NOT detected (a weakness of the checker, documented in DESIGN.md; not a violation of the property): %v", len(misses), run, misses)
+		}
+	}
 	os.Exit(rep.Finish())
 }
